@@ -6,6 +6,7 @@ package model
 
 import (
 	"fmt"
+	"math"
 
 	"github.com/basecomplextech/spec/internal/lang/syntax"
 )
@@ -18,8 +19,11 @@ type Field struct {
 
 func newField(pfield *syntax.Field) (*Field, error) {
 	tag := pfield.Tag
-	if tag == 0 {
+	switch {
+	case tag == 0:
 		return nil, fmt.Errorf("zero tag")
+	case tag < 0 || tag > math.MaxUint16:
+		return nil, fmt.Errorf("tag out of range, tag=%d, max=%d", tag, math.MaxUint16)
 	}
 
 	type_, err := newType(pfield.Type)
